@@ -9,28 +9,30 @@ namespace Tealer
 
 inductive PySV
   | unknown
-  | known (op : Op) (text : String) (args : List PySV)
+  | known (pos : Nat) (op : Op) (text : String) (args : List PySV)   -- `pos`: which instruction of the block (its identity; never read by the translated code)
 deriving Inhabited
 
 namespace PySV
+/-- the instruction that produced the value (position in its block) -/
+def pos? : PySV → Option Nat | .unknown => none | .known p _ _ _ => some p
 /-- `isinstance(x, UnknownStackValue)` -/
 def isUnknown : PySV → Bool | .unknown => true | _ => false
 /-- `x.instruction` (the Python never reads it on an unknown value; `.err` there) -/
-def instruction : PySV → Op | .unknown => .err | .known op _ _ => op
+def instruction : PySV → Op | .unknown => .err | .known _ op _ _ => op
 /-- `str(x.instruction)` -/
-def text : PySV → String | .unknown => "" | .known _ t _ => t
+def text : PySV → String | .unknown => "" | .known _ _ t _ => t
 /-- `x.args[i]`; the stack AST gives every instruction exactly `stack_pop_size` arguments, positions beyond that
     (an IndexError in Python, never reached) read as unknown -/
 def arg : PySV → Nat → PySV
   | .unknown, _ => .unknown
-  | .known _ _ args, i => args.getD i .unknown
+  | .known _ _ _ args, i => args.getD i .unknown
 end PySV
 
 /-- the stack value the Python holds for reference `r`, to depth `n` below it -/
 def treeOf (a : Ast) : Nat → Ref → PySV
   | _, none => .unknown
-  | 0, some (p, _) => .known (a.opOf p) (a.textOf p) []
-  | n + 1, some (p, _) => .known (a.opOf p) (a.textOf p) ((a.argsOf p).map (treeOf a n))
+  | 0, some (p, _) => .known p (a.opOf p) (a.textOf p) []
+  | n + 1, some (p, _) => .known p (a.opOf p) (a.textOf p) ((a.argsOf p).map (treeOf a n))
 
 namespace PyView
 
@@ -42,6 +44,7 @@ def pyClass : Op → String
   | .cmp .gt => "Greater" | .cmp .ge => "GreaterE"
   | .and => "And" | .or => "Or" | .not => "Not" | .add => "Add" | .sub => "Sub"
   | .assert => "Assert" | .ret => "Return" | .err => "Err" | .bz _ => "BZ" | .bnz _ => "BNZ"
+  | .customErr => "TealerCustomErrInstruction"
   | _ => "Instruction"
 
 /-- `isinstance(ins, C)` for one of the classes above -/
@@ -102,6 +105,32 @@ def keyStr (k : Key) : String := k.base
 structure Env where
   /-- `teal.get_int_constant(index)` -/
   getIntConstant : Nat → Bool × Nat
+
+/-- an instruction of a block together with `get_stack_value_for_ins(ins)` -/
+structure PyIns where
+  op : Op
+  sv : PySV
+deriving Inhabited
+
+/-- what generic.py reads of a basic block (blocks are named by their keys in the function) -/
+structure PyBlock where
+  isEntry : Bool                     -- block == self._entry_block
+  instructions : List PyIns          -- block.instructions
+  exitInstr : PyIns                  -- block.exit_instr
+  exitInstrNextLen : Nat             -- len(block.exit_instr.next)
+  next : List Nat                    -- block.next
+  nextGlobal : List Nat              -- next_blocks_global(self._function, block)
+  prevGlobal : List Nat              -- prev_blocks_global(self._function, block)
+  isSubReturnPoint : Bool            -- block.is_sub_return_point
+  callsubBlock : Nat                 -- block.callsub_block (when it is a return point)
+  isCallsubBlock : Bool              -- block.is_callsub_block
+  subReturnPoint : Option Nat        -- block.sub_return_point
+  calleeRetsubBlocks : Nat           -- len(block.called_subroutine.retsub_blocks)
+deriving Inhabited
+
+/-- a dictionary with block keys that is only written and looked up: `d[k] = v` is function update -/
+def dictSet {V : Type} (d : Nat → Option V) (k : Nat) (v : V) : Nat → Option V :=
+  fun k' => if k' = k then some v else d k'
 
 end PyView
 end Tealer
